@@ -30,6 +30,10 @@ import (
 // been asked before (emitted only with the response cache on; otherwise the
 // two are the same).
 type zzC01Step struct {
+	// Fail: no reconfiguration, but a rebuild of the engines that fails (a
+	// list file cannot be opened); Cfg and the tables are those of the step
+	// before -- a failed reconfiguration changes nothing.
+	Fail bool           `json:"fail"`
 	CI   int            `json:"ci"`
 	Cfg  zzC0102Cfg     `json:"cfg"`
 	Tab  [][]zzC0102Out `json:"tab"`
@@ -42,7 +46,11 @@ type zzC01Line struct {
 	Kind    string       `json:"kind"`
 	I       int          `json:"i"`
 	Queries []zzC0102Req `json:"queries"`
-	Steps   []zzC01Step  `json:"steps"`
+	// ProtOff / ProtOffR: the outcomes of any request (first time / asked
+	// before) while protection is not in effect.
+	ProtOff  []zzC0102Out `json:"protoff"`
+	ProtOffR []zzC0102Out `json:"protoffr"`
+	Steps    []zzC01Step  `json:"steps"`
 	UDP     bool         `json:"udp"`
 }
 
@@ -72,7 +80,8 @@ func TestZZVerifC01Replay(t *testing.T) {
 
 	dir := zzC0102WorkDir(t)
 	var queries []zzC0102Req
-	lineNo, walks, cfgs, evals, bad, viaUDP, reconfs := 0, 0, 0, 0, 0, 0, 0
+	var hdr zzC01Line
+	lineNo, walks, cfgs, evals, bad, viaUDP, reconfs, faults := 0, 0, 0, 0, 0, 0, 0, 0
 	zzReadNDJSON(t, "VERIF_IN", func(b []byte) {
 		var l zzC01Line
 		if err := json.Unmarshal(b, &l); err != nil {
@@ -81,6 +90,7 @@ func TestZZVerifC01Replay(t *testing.T) {
 
 		if l.Kind == "hdr01" {
 			queries = l.Queries
+			hdr = l
 
 			return
 		}
@@ -121,7 +131,28 @@ func TestZZVerifC01Replay(t *testing.T) {
 		var history []any
 		for si := range l.Steps {
 			st := &l.Steps[si]
-			if si > 0 {
+			if si > 0 && l.Steps[si-1].Fail {
+				if err = z.heal(); err != nil {
+					w.put(map[string]any{"kind": "skip", "i": l.I, "s": si, "configs": len(l.Steps) - si,
+						"err": err.Error(), "ops": z.ops})
+
+					return
+				}
+			}
+
+			if st.Fail {
+				var injected bool
+				injected, err = z.failedRebuild(rng)
+				if err != nil {
+					w.put(map[string]any{"kind": "skip", "i": l.I, "s": si, "configs": len(l.Steps) - si,
+						"err": err.Error(), "ops": z.ops})
+
+					return
+				}
+				if injected {
+					faults++
+				}
+			} else if si > 0 {
 				// The SAME live server, reconfigured.
 				if err = z.reconfigure(&st.Cfg, rng); err != nil {
 					w.put(map[string]any{"kind": "skip", "i": l.I, "s": si, "configs": len(l.Steps) - si,
@@ -133,7 +164,11 @@ func TestZZVerifC01Replay(t *testing.T) {
 			}
 
 			cfgs++
-			history = append(history, z.texts)
+			if st.Fail {
+				history = append(history, "a rebuild that fails; nothing changes")
+			} else {
+				history = append(history, z.texts)
+			}
 			// With the cache on every request is sent twice: the second
 			// answer must equal the first.
 			sends := 1
@@ -143,7 +178,7 @@ func TestZZVerifC01Replay(t *testing.T) {
 			for qi := range queries {
 				req := &queries[qi]
 				via := ""
-				if udp != "" && req.Client == "c2" {
+				if udp != "" && req.Client == "c2" && req.Cid == "" {
 					via = udp
 				}
 
@@ -154,11 +189,16 @@ func TestZZVerifC01Replay(t *testing.T) {
 
 					ans := zzC0102Harmless(req.Qtype)
 					wantOf := func(rep bool) (want []zzC0102Out) {
-						if rep && st.Cfg.Cache {
+						switch {
+						case z.protOff && rep && st.Cfg.Cache:
+							return hdr.ProtOffR
+						case z.protOff:
+							return hdr.ProtOff
+						case rep && st.Cfg.Cache:
 							return st.TabR[qi]
+						default:
+							return st.Tab[qi]
 						}
-
-						return st.Tab[qi]
 					}
 					o, ok := z.settled(req, ans, rngQ, via, wantOf)
 					evals++
@@ -186,7 +226,7 @@ func TestZZVerifC01Replay(t *testing.T) {
 	})
 
 	w.put(map[string]any{"kind": "summary", "shard": idx, "walks": walks, "configs": cfgs, "evals": evals,
-		"bad": bad, "udp": viaUDP, "reconfigurations": reconfs})
+		"bad": bad, "udp": viaUDP, "reconfigurations": reconfs, "faults": faults})
 }
 
 // ---------------------------------------------------------------- direction B
@@ -309,7 +349,7 @@ func zzC01RandRules(rng *rand.Rand, targets [][]string) (rules []zzC0102Rule) {
 // zzC01RandCfg draws a configuration of up to 12 rules.
 func zzC01RandCfg(rng *rand.Rand) (cfg zzC0102Cfg, targets [][]string) {
 	base := zzC01RandName(rng, 3)
-	targets = [][]string{base, append([]string{zzC01Labels[rng.Intn(4)]}, base...), zzC01RandName(rng, 4), {"4chan", "org"}}
+	targets = [][]string{base, append([]string{zzC01Labels[rng.Intn(4)]}, base...), zzC01RandName(rng, 4), {"4chan", "org"}, {"9gag", "com"}}
 	if rng.Intn(2) == 0 {
 		targets = append(targets, append([]string{"b", "a"}, base...))
 	}
@@ -414,6 +454,7 @@ func TestZZVerifC01Trace(t *testing.T) {
 				req := zzC0102Req{
 					Name: n, Qtype: []string{"A", "AAAA", "HTTPS", "TXT"}[rng.Intn(4)],
 					Client: []string{"c1", "c2"}[rng.Intn(2)],
+					Cid:    []string{"", "", "x", "kid"}[rng.Intn(4)],
 				}
 				ans := zzC0102Harmless(req.Qtype)
 				for k, sends := 0, 1+rng.Intn(2); k < sends; k++ {
